@@ -207,3 +207,31 @@ VP_HARNESS(h_mini_ok)
 #endif
   VP_WITNESS("mini topology");
 }
+
+/* ---- build: distance matrices are compared in full -------------------------------------------------------------------------- */
+static struct hwloc_internal_distances_s *mk_dist(struct vp_mini *m, const uint64_t *v, unsigned long kind)
+{
+  struct hwloc_internal_distances_s *d = malloc(sizeof *d); VP_NONNULL(d); static const struct hwloc_internal_distances_s dz; *d = dz;
+  d->nbobjs = 2; d->unique_type = HWLOC_OBJ_PU; d->kind = kind; d->iflags = HWLOC_INTERNAL_DIST_FLAG_OBJS_VALID;
+  d->objs = malloc(2 * sizeof(hwloc_obj_t)); d->indexes = malloc(2 * sizeof(uint64_t)); d->values = malloc(4 * sizeof(uint64_t));
+  VP_NONNULL(d->objs); VP_NONNULL(d->indexes); VP_NONNULL(d->values);
+  d->objs[0] = m->pu[0]; d->objs[1] = m->pu[1]; d->indexes[0] = 0; d->indexes[1] = 1;
+  for (unsigned i = 0; i < 4; i++) d->values[i] = v[i];
+  m->topo->first_dist = m->topo->last_dist = d;
+  return d;
+}
+VP_HARNESS(h_build_dist)
+{
+  struct hwloc_topology *A = vp_mini_build_at(&vp_mini), *B = vp_mini_build_at(&vp_second);
+  uint64_t va[4], vb[4]; for (unsigned i = 0; i < 4; i++) { va[i] = vp_in64(); vb[i] = vp_in64(); }
+  unsigned long ka = vp_in64(), kb = vp_in64();
+  mk_dist(&vp_mini, va, ka); mk_dist(&vp_second, vb, kb);
+  hwloc_topology_diff_t diff = (void *) 1;
+  int r = hwloc_topology_diff_build(A, B, 0, &diff);
+  int differ = ka != kb; for (unsigned i = 0; i < 4; i++) if (va[i] != vb[i]) differ = 1;
+  VP_CHECK(r == (differ ? 1 : 0), "build: topologies whose distance matrices differ in ANY value (or kind) are not reported as identical");
+  if (differ) VP_CHECK(diff && diff->generic.type == HWLOC_TOPOLOGY_DIFF_TOO_COMPLEX && diff->generic.next == NULL, "build: a distances difference is a single TOO_COMPLEX entry on the root");
+  else VP_CHECK(diff == NULL, "build: equal distances add nothing to the diff");
+  VP_WITNESS_IF(r == 1 && va[0] == vb[0] && va[1] == vb[1] && va[2] == vb[2] && ka == kb, "matrices that differ only in the last value");
+  VP_WITNESS_IF(r == 0, "equal matrices");
+}
